@@ -1,6 +1,7 @@
 package world
 
 import (
+	"crypto/sha256"
 	badger "github.com/dgraph-io/badger/v2"
 	"bytes"
 	"context"
@@ -54,6 +55,7 @@ type Op struct {
 	Gate   bool    `json:"gate,omitempty"`
 	Lane   int     `json:"lane,omitempty"` // inside a free-running "par": ops with the same lane > 0 run one after the other in one goroutine (a sequential client)
 	KillAfterUs int `json:"kill_after_us,omitempty"` // remote mode: SIGKILL the binary this many microseconds after the request was sent
+	Fork   int     `json:"fork,omitempty"` // which of several "forks" the request's domain belongs to (the bytes after the domain type)
 	N      int     `json:"n,omitempty"` // for Kind "scatter": batch size
 	P      int     `json:"p,omitempty"` // for Kind "scatter": GOMAXPROCS
 }
@@ -68,6 +70,7 @@ type Prior struct {
 	Fmt  string `json:"fmt"` // "v1", "gob", "garbage"
 	// Raw values (not abstract) if RawVals is set: S,T,Slot are taken literally (may be -1).
 	RawVals bool `json:"raw,omitempty"`
+	Fake    bool `json:"fake,omitempty"` // K numbers a synthetic key that is not an account of the world
 	// Concrete int64 values as decimal strings; override S/T/Slot when non-empty.
 	SV    string `json:"sv,omitempty"`
 	TV    string `json:"tv,omitempty"`
@@ -278,6 +281,11 @@ func (r *Runner) writePriors(ctx context.Context, dir string, b *Base, priors []
 	}()
 	for _, p := range priors {
 		pk := b.PubKeys[fmt.Sprintf("k%d", p.K)]
+		if p.Fake {
+			// a record of a validator key that is no account of this instance (a well-filled database): 48 deterministic bytes
+			h := sha256.Sum256([]byte(fmt.Sprintf("verif-fake-key-%d", p.K)))
+			pk = append(append([]byte{0xa0}, h[:]...), h[:15]...)
+		}
 		if pk == nil {
 			return fmt.Errorf("prior: unknown key %d", p.K)
 		}
@@ -479,7 +487,7 @@ func (r *Runner) entReqs(b *Base, op Op) []entReq {
 		// the 28 bytes after the domain type (fork version / genesis root part) differ between the entries of a batch - as in a batch that
 		// spans a fork boundary - except that every third entry shares them with entry 0; the rules look at the type only, the
 		// signature of entry i must be over ITS domain
-		salt := byte(0x5a)
+		salt := byte(0x5a) + byte(op.Fork)*0x10
 		if len(op.Ents) > 1 && i%3 != 0 {
 			salt += byte(i % 3)
 		}
@@ -789,6 +797,8 @@ func (r *Runner) Run(ctx context.Context, sc *Scenario) error {
 				return fmt.Errorf("restart: %w", err)
 			}
 			r.Log.Emit(Ev{"ev": "Restart"})
+		case "sleep":
+			time.Sleep(time.Duration(op.N) * time.Millisecond)
 		case "close":
 			_ = st.Close(ctx)
 			r.Log.Emit(Ev{"ev": "CloseStore"})
